@@ -1,6 +1,6 @@
 (** Pins for C09: the statements written out, so that no theorem is weakened quietly. *)
 From TucModel Require Import Base.Bytes Model.Bounds Model.CutBytes Model.Scan Model.Opt Model.CutStr
-     Model.FastLane Spec.Resolve Proofs.BoundsFacts Proofs.C09 Properties.C09.
+     Model.FastLane Spec.Resolve Proofs.BoundsFacts Proofs.C09 Proofs.C01More Proofs.C09More Properties.C09.
 Local Open Scope Z_scope.
 
 Check C09_range_unchanged :
@@ -39,6 +39,24 @@ Check C09_field_mode_fast :
     items_rewrite (Z.of_nat (length fields - 1)) l l' ->
     fast_out o d line fields l' = fast_out o d line fields l.
 Print Assumptions C09_field_mode_fast.
+
+Check C09_whole_record :
+  forall (o : opt) (u' : ublist) (line0 : bytes),
+    o_regex o = None -> o_btype o = BFields -> o_json o = false ->
+    (forall line1, line1 <> [] ->
+       items_rewrite (Z.of_nat (length (snd (lit_stage o line1)))) (items (o_bounds o)) (items u')) ->
+    cut_str (with_bounds u' o) line0 = cut_str o line0.
+Print Assumptions C09_whole_record.
+
+Check C09_complement_list :
+  forall (n : nat) (l l' : list bof),
+    items_rewrite (Z.of_nat n) l l' ->
+    match complement_list l n, complement_list l' n with
+    | Some u, Some u' => items_rewrite (Z.of_nat n) (items u) (items u')
+    | None, None => True
+    | _, _ => False
+    end.
+Print Assumptions C09_complement_list.
 
 Check C09_minus_one_is_last :
   forall n : nat, (0 < n)%nat ->
